@@ -31,7 +31,10 @@ namespace sim {
 		// simplified network model where the two paths of a connection are set up
 		// independently, and we can set up the nat hop only on the outgoing path
 		p.from.address(m_external_addr);
-		if (p.channel) {
+		// only the connecting side's SYN announces how the connector is seen;
+		// a SYN-ACK (or reset) travelling back through the acceptor's own NAT
+		// must not overwrite that with the acceptor's external address
+		if (p.channel && p.type == aux::packet::type_t::syn) {
 			p.channel->visible_ep[0].address(m_external_addr);
 		}
 		forward_packet(std::move(p));
